@@ -520,6 +520,24 @@ func (s *wBrokerSrvStream) Send(m *plugin.ConnInfo) error {
 	s.p.toCli <- vClone(m).(*plugin.ConnInfo)
 	return nil
 }
+func (s *wBrokerCliStream) RecvMsg(m interface{}) error {
+	i, err := s.Recv()
+	if err != nil {
+		return err
+	}
+	vCopyInto(m, i)
+	return nil
+}
+func (s *wBrokerCliStream) SendMsg(m interface{}) error { return s.Send(m.(*plugin.ConnInfo)) }
+func (s *wBrokerSrvStream) RecvMsg(m interface{}) error {
+	i, err := s.Recv()
+	if err != nil {
+		return err
+	}
+	vCopyInto(m, i)
+	return nil
+}
+func (s *wBrokerSrvStream) SendMsg(m interface{}) error { return s.Send(m.(*plugin.ConnInfo)) }
 func (s *wBrokerSrvStream) Recv() (*plugin.ConnInfo, error) {
 	select {
 	case m := <-s.p.toSrv:
